@@ -1,1 +1,113 @@
-fn main() { println!("placeholder"); }
+// E2: CRC algebra over constants read from /repo's source (DESIGN.md §1.4).
+//
+//   crcproof <nbits> <256 table words in hex, comma separated> [census]
+//
+// (i)  derives the reflected generator P = T[0x80] ^ T[0] and checks that every table word
+//      satisfies T[i] = L[i] ^ T[0], L = the byte table of P (so `crc' = (crc >> 8) ^ T[(crc ^ b) & 0xFF]`
+//      is the standard reflected CRC step plus a constant, and the constant cancels between two
+//      messages of equal length);
+// (ii) enumerates x^i mod g for i < nbits and shows that no multiple of g of weight 1, 2, 3 or 4
+//      has degree < nbits (by shift invariance the lowest term can be taken as x^0).
+// Prints one JSON object.  Nothing of uflow is executed.
+use std::collections::HashMap;
+
+fn main() {
+    let args: Vec<String> = std::env::args().collect();
+    if args.len() < 3 {
+        eprintln!("usage: crcproof <nbits> <table hex csv> [census]");
+        std::process::exit(2);
+    }
+    let nbits: usize = args[1].parse().expect("nbits");
+    let table: Vec<u32> = args[2]
+        .split(',')
+        .map(|w| u32::from_str_radix(w.trim_start_matches("0x"), 16).expect("hex word"))
+        .collect();
+    assert_eq!(table.len(), 256, "table must have 256 words");
+    let census = args.len() > 3 && args[3] == "census";
+
+    let k = table[0];
+    let p = table[0x80] ^ k;
+    let mut table_mismatch = 0usize;
+    for i in 0..256u32 {
+        let mut c = i;
+        for _ in 0..8 {
+            c = if c & 1 != 0 { (c >> 1) ^ p } else { c >> 1 };
+        }
+        if table[i as usize] ^ k != c {
+            table_mismatch += 1;
+        }
+    }
+    // generator in normal notation: reverse the 32 bits of p and prepend x^32
+    let g_low = p.reverse_bits();
+    let has_const_term = g_low & 1 != 0; // x^0 coefficient (needed for shift invariance)
+
+    // r[i] = x^i mod g in reflected representation (bit 31 <-> x^0)
+    let mut r: Vec<u32> = Vec::with_capacity(nbits);
+    let mut cur: u32 = 0x8000_0000;
+    for _ in 0..nbits {
+        r.push(cur);
+        cur = if cur & 1 != 0 { (cur >> 1) ^ p } else { cur >> 1 };
+    }
+    let mut probes: u64 = 0;
+    // weight 1: x^i = 0 mod g never (r[i] != 0)
+    let w1 = r.iter().filter(|&&v| v == 0).count();
+    // weight 2: r[i] == r[j]
+    let mut index: HashMap<u32, usize> = HashMap::with_capacity(nbits * 2);
+    let mut w2 = 0usize;
+    for (i, &v) in r.iter().enumerate() {
+        probes += 1;
+        if index.insert(v, i).is_some() {
+            w2 += 1;
+        }
+    }
+    // weight 3: 1 + x^j + x^k = 0  <=>  r[0] ^ r[j] == r[k], 0 < j < k
+    let mut w3 = 0usize;
+    for j in 1..nbits {
+        probes += 1;
+        if let Some(&kk) = index.get(&(r[0] ^ r[j])) {
+            if kk != 0 && kk != j {
+                w3 += 1;
+            }
+        }
+    }
+    // weight 4: 1 + x^j + x^k + x^l = 0  <=>  r[k] ^ r[l] in { r[0] ^ r[j] }
+    let mut v0: HashMap<u32, usize> = HashMap::with_capacity(nbits * 2);
+    for j in 1..nbits {
+        v0.insert(r[0] ^ r[j], j);
+    }
+    let mut w4 = 0usize;
+    for kx in 1..nbits {
+        for l in (kx + 1)..nbits {
+            probes += 1;
+            if let Some(&j) = v0.get(&(r[kx] ^ r[l])) {
+                if j != kx && j != l {
+                    w4 += 1;
+                }
+            }
+        }
+    }
+    let mut w5 = String::from("null");
+    if census {
+        // information only: weight-5 multiples with lowest term x^0 (count of (j,k | l,m) splits)
+        let mut pairs: HashMap<u32, u32> = HashMap::new();
+        let lim = nbits.min(4096);
+        for a in 1..lim {
+            for b in (a + 1)..lim {
+                *pairs.entry(r[a] ^ r[b]).or_insert(0) += 1;
+            }
+        }
+        let mut c5: u64 = 0;
+        for a in 1..lim {
+            for b in (a + 1)..lim {
+                if let Some(&n) = pairs.get(&(r[0] ^ r[a] ^ r[b])) {
+                    c5 += n as u64;
+                }
+            }
+        }
+        w5 = format!("{{\"window_bits\":{},\"split_count\":{}}}", lim, c5);
+    }
+    println!(
+        "{{\"nbits\":{},\"affine_constant\":\"0x{:08X}\",\"reflected_poly\":\"0x{:08X}\",\"generator\":\"0x1{:08X}\",\"has_const_term\":{},\"table_mismatch\":{},\"weight1\":{},\"weight2\":{},\"weight3\":{},\"weight4\":{},\"probes\":{},\"weight5_census\":{}}}",
+        nbits, k, p, g_low, has_const_term, table_mismatch, w1, w2, w3, w4, probes, w5
+    );
+}
